@@ -188,6 +188,10 @@ func C04(c *core.Ctx) error {
 			args = append(args, "-resets")
 		}
 		r := core.Run(b.dir, core.UserEnv(), 40*time.Minute, "", b.bin, args...)
+		if core.ResourceFailure(r) {
+			c.Skip("driver run timed out or was killed: %v", args)
+			return
+		}
 		var res c04Result
 		if r.Exit != 0 || json.Unmarshal([]byte(lastLine(r.Stdout)), &res) != nil {
 			// a missing Reset method etc. surfaces as a driver panic: that is an observation about the mock
